@@ -195,6 +195,8 @@ class C13(SessionCheck):
         for i, (ev, o) in enumerate(zip(evs, io)):
             if ev[0] == 2 and o and o[0] == 0:
                 n_ok = 0
+            if ev[0] == 0 and o and o[0] == 0 and case.get("env") is not None:
+                n_ok += 1       # dispatched directly on env.dispatcher: a reward is emitted for it as well
             if ev[0] == 8:
                 st = obs["steps"][k]
                 k += 1
